@@ -293,6 +293,15 @@ def run(case):
                     probes["save_reported_ok_despite_fault"] = 1
                 clone = fs.clone()
                 _check_load(dw, clone, s_old, s_new, violations, probes, "after failed operation", cfg, opname, kind)
+                if cfg["resolution"] != "strict" and not violations:
+                    # ... and when the machine then loses power before anything else is written: what the failed save left
+                    # un-synced is gone (or torn), and the start-up load must still give a complete old or new state
+                    mode = cfg["resolution"].split("-")[1]
+                    keep = int(round(cfg["journal_frac"] * len(fs.journal)))
+                    lost = fs.crash("powerloss", journal_keep=keep, data_mode=mode, cut=cfg["cut"])
+                    faults["powerloss_after_failed_op_" + mode] = 1
+                    probes["powerloss_after_failed_op"] = 1
+                    _check_load(dw, lost, s_old, s_new, violations, probes, "after failed operation and power loss", cfg, opname, kind)
                 # the original process: one more save must complete and persist the current state
                 dw.use(fs)
                 status2, exc2 = dw.save(gw_a)
